@@ -25,7 +25,7 @@ RULE = ("warm/cold differential over recorded call histories: ctor-from-string, 
         "after an option toggle")
 ANCHORS = ['str_to_bitstore', 'tokenparser', 'preprocess_tokens', 'parse_name_length_token', 'parse_single_struct_token',
            'parse_single_token', 'Dtype._new_from_token', 'Dtype._create', 'Options.set_lsb0', 'pack', 'Bits._readlist']
-REQUIRED_OPS = ['ctor', 'fromstring', 'ctor-kw', 'prop-assign', 'pack', 'unpack', 'readlist', 'dtype', 'array-dtype', 'toggle', 'mutate-earlier']
+REQUIRED_OPS = ['ctor', 'fromstring', 'ctor-kw', 'prop-assign', 'pack', 'unpack', 'readlist', 'unpack-dtypes', 'dtype', 'array-dtype', 'toggle', 'mutate-earlier']
 MIN_EVALS = {'quick': 2000, 'thorough': 40000}
 PINNED_CACHES = ['str_to_bitstore', '_str_to_bitstore', 'tokenparser', 'preprocess_tokens', 'parse_name_length_token',
                  'parse_single_struct_token', 'parse_single_token', '_new_from_token', '_create']
@@ -99,6 +99,17 @@ def run_call(c, keep=None):
             s = bitstring.ConstBitStream(bin=c['data'])
             r = s.readlist(c['fmt'], **c['kw'])
             return ['ok', jval(r), s.pos]
+        if kind == 'unpack-dtypes':
+            # Dtype objects (with their scales) as items of the format list: what is read depends on the objects given now
+            fmt = [Dtype(nm, ln, scale=sc) if sc is not None else Dtype(nm, ln) for nm, ln, sc in c['items']]
+            if c['via'] == 'unpack':
+                r = Bits(bin=c['data']).unpack(fmt)
+            elif c['via'] == 'readlist':
+                r = bitstring.ConstBitStream(bin=c['data']).readlist(fmt)
+            else:
+                r = bitstring.BitStream(bin=c['data']).peeklist(fmt)
+            # T12: 6 and 6.0 are the same result
+            return ['ok', [repr(float(x)) if isinstance(x, (int, float)) and not isinstance(x, bool) else jval(x) for x in r]]
         if kind == 'dtype':
             args = [c['tok']] + ([c['len']] if c['len'] is not None else [])
             d = Dtype(*args, **({'scale': c['scale']} if c.get('scale') is not None else {}))
@@ -149,11 +160,27 @@ def key_class(c):
     s = c.get('s') or c.get('fmt') or c.get('tok') or (c.get('value') if isinstance(c.get('value'), str) else '') or c.get('name') or ''
     if isinstance(s, list):
         s = ','.join(map(str, s))
-    if re.search(r'mxfp\d*\s*=', s) or (c['kind'] == 'pack' and 'mxfp' in s):
+    if re.search(r'mxfp\d*:?\d*=', re.sub(r'\s+', '', s)) or (c['kind'] == 'pack' and 'mxfp' in s):
         return 'mxfp-token'
     if re.search(r'\b(ue|se|uie|sie)\b', s):
         return 'golomb-token'
     return 'plain'
+
+
+# token strings whose bits depend on an option value, in several legal spellings (white space is insignificant anywhere in a token)
+HOT_OPTION_SENSITIVE = ['e4m3mxfp=1000', 'e4m3m xfp=1000', ' e4m3mxfp = 1000 ', 'e4m3mxfp:8=1000', 'e4m3 mxfp : 8 = 1000', 'e4 m3 mx fp=1000',
+                        'e5m2mxfp=1e6', 'e5m2 m x f p = 1e6', 'e5m2mxfp = -1e6', 'e 5m2mxfp=-1e6', 'e4m3mxfp=-1000, u8=1', 'u8=1, e4m3m\txfp=1000',
+                        'e3m2mxfp=100', 'e2m3mxf p=100', 'e2m1mxfp=100', 'e2m1mx fp=-100']
+
+
+def respell(rng, s):
+    """The same token string with white space inserted at random places (it is insignificant in token strings)."""
+    out = []
+    for ch in s:
+        if rng.random() < 0.12:
+            out.append(rng.choice([' ', ' ', '  ', '\t']))
+        out.append(ch)
+    return ''.join(out)
 
 
 def gen_history(ctx, n):
@@ -213,9 +240,20 @@ def gen_history(ctx, n):
                          'opts': list(opts)})
             continue
         k = rng.choice(['ctor', 'ctor', 'ctor', 'ctor', 'fromstring', 'pack', 'pack', 'unpack', 'readlist', 'dtype', 'dtype', 'array-dtype', 'array-dtype', 'find',
-                        'ctor-kw', 'ctor-kw', 'prop-assign'])
+                        'ctor-kw', 'ctor-kw', 'prop-assign', 'unpack-dtypes'])
         if k in ('ctor', 'fromstring'):
             c = {'kind': k, 'cls': rng.choice(['Bits', 'BitArray', 'ConstBitStream', 'BitStream']), 's': nxt('str', strs)}
+            r2 = rng.random()
+            if r2 < 0.08:
+                c['s'] = rng.choice(HOT_OPTION_SENSITIVE)       # few keys, revisited under different option values
+            elif r2 < 0.2:
+                c['s'] = respell(rng, c['s'])
+        elif k == 'unpack-dtypes':
+            items = []
+            for _ in range(rng.choice([1, 2, 3])):
+                nm, ln = rng.choice([('uint', 8), ('int', 8), ('uint', 12), ('float', 16), ('e4m3mxfp', None), ('uintle', 16), ('mxint', None), ('bfloat', None)])
+                items.append([nm, ln, rng.choice([None, None, 2, 4, 0.5, 16, 3])])
+            c = {'kind': k, 'items': items, 'data': rbits(48), 'via': rng.choice(['unpack', 'readlist', 'peeklist'])}
         elif k == 'pack':
             f, v, kw = rng.choice(packs)
             c = {'kind': k, 'fmt': f, 'vals': v, 'kw': kw}
